@@ -46,6 +46,19 @@ Proof.
   unfold hkdf_derive, hkdf_max. destruct (Nat.ltb_spec (255 * 64) len) as [Hl|Hl]; split; intros E; try lia; try discriminate; reflexivity.
 Qed.
 
+(* every length the code asks for (32 everywhere) is served: no ValueError, exactly len bytes *)
+Lemma hkdf_derive_small ikm salt info len :
+  len <= 255 * 64 -> exists out, hkdf_derive ikm salt info len = Some out /\ length out = len.
+Proof.
+  intros H. unfold hkdf_derive, hkdf_max.
+  destruct (Nat.ltb_spec (255 * 64) len) as [Hl|Hl]; [lia|].
+  eexists; split; [reflexivity|apply hkdf_expand_length].
+Qed.
+
+Lemma hkdf_derive_32 ikm salt info :
+  exists out, hkdf_derive ikm salt info 32 = Some out /\ length out = 32.
+Proof. apply hkdf_derive_small. lia. Qed.
+
 (* more blocks only append *)
 Lemma hkdf_blocks_prefix n m prk info prev i :
   exists tail, hkdf_blocks (n + m) prk info prev i = hkdf_blocks n prk info prev i ++ tail.
